@@ -92,6 +92,8 @@ About ==
   [line |-> l,
    cust |-> IF "c" \in DOMAIN e /\ "id" \in DOMAIN e /\ Has(cust, <<e.c, e.id>>) THEN cust[<<e.c, e.id>>] ELSE NoCust,
    chan |-> IF "c" \in DOMAIN e /\ Has(chan, e.c) THEN chan[e.c] ELSE NewChan("?"),
+   top |-> IF e.ev \in {"TTake", "TPutBegin", "TPutEnd", "TPutAck", "TCopied", "TPauseBegin", "TPauseEnd", "HStatsT", "TExit"}
+              /\ Has(top, e.t) THEN top[e.t] ELSE [paused |-> "?", gone |-> FALSE],
    client |-> IF "k" \in DOMAIN e /\ Has(cl, e.k) THEN [cl[e.k] EXCEPT !.sends = IF @ = <<>> THEN <<>> ELSE <<Head(@)>>] ELSE NewClient]
 
 HW == IF l > TLCGet(1) THEN TLCSet(1, l) /\ (IF l <= Len(Trace) THEN TLCSet(2, About) ELSE TRUE) ELSE TRUE
